@@ -139,3 +139,120 @@ impl StoredPointHeader {
     #[verifier::external_body]
     pub fn write(&self, writer: &mut File) -> (r: Result<(), IoError>) { unimplemented!() }
 }
+
+// ======== additions for the call site (PubPoint::process_collected) ========
+#[verifier::external_body] pub struct RunMetrics { _opaque: () }
+#[verifier::external_body] pub struct FileAndHash { _opaque: () }
+#[verifier::external_body] pub struct FileListIter { _opaque: () }
+#[verifier::external_body] pub struct ThreadRng { _opaque: () }
+#[verifier::external_body] pub struct ObjectsClosure { _opaque: () }
+
+// Bytes / RsyncUri comparisons and clones
+pub uninterp spec fn bytes_eq(a: Bytes, b: Bytes) -> bool;
+impl PartialEqSpecImpl for Bytes {
+    open spec fn obeys_eq_spec() -> bool { true }
+    open spec fn eq_spec(&self, other: &Bytes) -> bool { bytes_eq(*self, *other) }
+}
+impl PartialEq for Bytes {
+    #[verifier::external_body]
+    fn eq(&self, other: &Self) -> bool { unimplemented!() }
+}
+pub uninterp spec fn uri_eq(a: RsyncUri, b: RsyncUri) -> bool;
+impl PartialEqSpecImpl for RsyncUri {
+    open spec fn obeys_eq_spec() -> bool { true }
+    open spec fn eq_spec(&self, other: &RsyncUri) -> bool { uri_eq(*self, *other) }
+}
+impl PartialEq for RsyncUri {
+    #[verifier::external_body]
+    fn eq(&self, other: &Self) -> bool { unimplemented!() }
+}
+impl Clone for RsyncUri {
+    #[verifier::external_body]
+    fn clone(&self) -> (r: RsyncUri) ensures r == *self, { unimplemented!() }
+}
+
+impl Validity {
+    #[verifier::external_body]
+    pub fn not_after(self) -> (r: Time) { unimplemented!() }
+}
+impl Clone for Validity { #[verifier::external_body] fn clone(&self) -> (r: Self) { unimplemented!() } }
+impl Copy for Validity {}
+impl ResourceCert {
+    #[verifier::external_body]
+    pub fn validity(&self) -> (r: Validity) { unimplemented!() }
+}
+
+// collector::Repository: what loading an object yields
+#[verifier::external_body] pub struct CollRepository<'a> { _p: &'a Collector }
+impl<'a> CollRepository<'a> {
+    #[verifier::external_body]
+    pub fn load_object(&self, uri: &RsyncUri) -> (r: Result<Option<Bytes>, RunFailed>) { unimplemented!() }
+}
+
+// randomised processing order of the manifest entries (not modelled: only the
+// object closure, which is outside this unit, consumes it)
+impl ManifestContent {
+    #[verifier::external_body]
+    pub fn iter(&self) -> (r: FileListIter) { unimplemented!() }
+}
+impl FileListIter {
+    #[verifier::external_body]
+    pub fn collect(self) -> (r: Vec<FileAndHash>) { unimplemented!() }
+}
+pub trait SliceRandom {
+    fn shuffle(&mut self, rng: &mut ThreadRng);
+}
+impl<T> SliceRandom for Vec<T> {
+    #[verifier::external_body]
+    fn shuffle(&mut self, rng: &mut ThreadRng) { unimplemented!() }
+}
+#[verifier::external_body]
+pub fn rand_rng() -> (r: ThreadRng) { unimplemented!() }
+
+// R17: stands for the object closure of process_collected (body not part of this unit)
+#[verifier::external_body]
+pub fn opaque_objects_closure() -> (r: ObjectsClosure) { unimplemented!() }
+
+// R14
+#[verifier::external_body]
+pub fn metric_inc(c: u32) -> (r: u32) { unimplemented!() }
+
+// ghost: "validate_collected_manifest accepted these manifest bytes in this run"
+// (unit manifest_policy proves what acceptance implies: never premature, not
+// stale under the policy 'reject', validated under the CA, CRL checks passed)
+pub uninterp spec fn collected_accepted(manifest_bytes: Bytes) -> bool;
+
+impl ValidPointManifest {
+    #[verifier::external_body]
+    fn point_validity<T: ProcessPubPoint>(&self, processor: &mut T) { unimplemented!() }
+}
+
+impl<'a, P: ProcessRun> PubPoint<'a, P> {
+    #[verifier::external_body]
+    fn validate_collected_manifest(&mut self, manifest_bytes: Bytes, repository: &CollRepository)
+        -> (r: Result<Option<ValidPointManifest>, RunFailed>)
+        ensures
+            r matches Ok(Some(m)) ==> collected_accepted(m.manifest_bytes) && m.manifest_bytes == manifest_bytes,
+            final(self).run == old(self).run, final(self).cert == old(self).cert,
+    { unimplemented!() }
+
+    #[verifier::external_body]
+    fn accept_point(self, manifest: ValidPointManifest, metrics: &mut RunMetrics) { unimplemented!() }
+
+    #[verifier::external_body]
+    fn reject_point(self, metrics: &mut RunMetrics) { unimplemented!() }
+}
+
+// store::StoredPoint::update (file system work, not extracted). Its
+// preconditions are the call-site obligations of C05 / C06.
+impl StoredPoint {
+    #[verifier::external_body]
+    fn update<F>(&mut self, store: &Store, manifest: StoredManifest, objects: F) -> (r: Result<(), UpdateError>)
+        requires
+            // C05: stored data is never replaced by a manifest that is not strictly newer
+            old(self).manifest matches Some(s) ==> manifest.manifest_number.val() > s.manifest_number.val()
+                && manifest.this_update.val() > s.this_update.val(),
+            // C06: only a manifest accepted by validate_collected_manifest is ever stored
+            collected_accepted(manifest.manifest),
+    { unimplemented!() }
+}
